@@ -49,9 +49,9 @@ func (P) Engine() string { return "E1" }
 
 func (P) Describe() harness.Description {
 	return harness.Description{
-		MustHit: []string{"reload_whole_set", "reload_per_resource", "reload_reorders", "reload_modifies_other_with_same_stat_params", "trace_has_block_and_admit", "modified_rule_keeps_statistics"},
+		MustHit: []string{"reload_compound", "reload_whole_set", "reload_per_resource", "reload_reorders", "reload_modifies_other_with_same_stat_params", "trace_has_block_and_admit", "modified_rule_keeps_statistics"},
 		Level:   "exploration",
-		Rule: "case = (kind of the unchanged rule R: flow throttling / warm-up / reject with a private window, circuit breaker, hotspot QPS, hotspot concurrency; 0-2 never-blocking rules of the same module on the same resource; 20-80 traffic ops (requests with arguments, holds, completions with errors, ticks) with 1-4 reloads inserted: each keeps R field-for-field identical (fresh object) and adds / removes / modifies (also with unchanged statistic parameters) / reorders the others, or duplicates R where that is behaviour-neutral; whole-set and per-resource paths). " +
+		Rule: "case = (kind of the unchanged rule R: flow throttling / warm-up / reject with a private window, circuit breaker, hotspot QPS, hotspot concurrency; 0-2 never-blocking rules of the same module on the same resource; 20-80 traffic ops (requests with arguments, holds, completions with errors, ticks) with 1-4 reloads inserted, each a compound of 1-3 edits: each keeps R field-for-field identical (fresh object) and adds / removes / modifies (also with unchanged statistic parameters) / reorders the others, or duplicates R where that is behaviour-neutral; whole-set and per-resource paths). " +
 			"Run A executes the history without the reloads, run B with them, after a full reset of process-global state; the decision traces (admit / block type / requested wait) on R's resource must be identical. A second oracle modifies R itself keeping its statistic parameters (private-window flow rule: threshold change) and requires the decisions to equal a model whose window keeps the pre-reload counts. " +
 			"non-trivial = the trace contains both outcomes after the first reload; distinct = hash(config, ops)",
 		Assumptions: []string{"the other rules never block (huge thresholds) so that the trace is governed by R alone", "duplicates of R are inserted only for rule kinds where an extra fresh copy cannot change a decision (reject-mode flow rules: the copy's private window holds a subset of the original's counts)"},
@@ -79,7 +79,19 @@ func (P) Gen(rng *sim.Rng, tier string) *harness.Case {
 	for len(ops) < total {
 		if reloadAt[len(ops)] {
 			// edit script: N selects the edit, M its parameter, F = per-resource path
-			ops = append(ops, harness.Op{K: "reload", N: uint64(rng.Intn(7)), M: uint64(rng.Range(1, 6)), F: rng.Chance(0.4)})
+			// N/M hold up to three edits in base 8 (digit 7 of N = no edit): one reload may add, remove, modify and
+			// move several rules at once, as a pushed configuration does
+			n, m := uint64(0), uint64(0)
+			k := 1 + rng.Weighted([]int{60, 25, 15})
+			for j := 2; j >= 0; j-- {
+				d := uint64(7)
+				if j < k {
+					d = uint64(rng.Intn(7))
+				}
+				n = n*8 + d
+				m = m*8 + uint64(rng.Range(1, 6))
+			}
+			ops = append(ops, harness.Op{K: "reload", N: n, M: m, F: rng.Chance(0.4)})
 			continue
 		}
 		switch rng.Weighted([]int{45, 20, 35}) {
@@ -221,6 +233,48 @@ func load(o *harness.Outcome, step int, cfg *Cfg, l *lst, perRes bool) {
 	})
 }
 
+// applyEdit performs one edit of the rule list description.
+func applyEdit(cfg *Cfg, o *harness.Outcome, n *lst, en, em uint64, step int, modSteps map[int]int) {
+	switch en {
+	case 7: // no edit
+	case 0: // add a rule at the front
+		n.others = append([]int{int(em) + 10}, n.others...)
+		n.rpos++
+	case 1: // add at the end
+		n.others = append(n.others, int(em)+20)
+	case 2: // remove one
+		if len(n.others) > 0 {
+			i := int(em) % len(n.others)
+			n.others = append(n.others[:i], n.others[i+1:]...)
+			if n.rpos > i {
+				n.rpos--
+			}
+		}
+	case 3: // modify one, statistic parameters unchanged
+		if len(n.others) > 0 {
+			i := int(em) % len(n.others)
+			n.others[i] += 2
+			o.Probe("reload_modifies_other_with_same_stat_params")
+		}
+	case 4: // move R
+		n.rpos = int(em) % (len(n.others) + 1)
+		o.Probe("reload_reorders")
+	case 5: // duplicate R where neutral: a second private window only ever holds a subset of the first one's counts
+		if cfg.Kind == kStandalone && len(modSteps) == 0 {
+			n.dup = !n.dup
+			o.Probe("reload_duplicates_r")
+		}
+	case 6: // modify R itself keeping its statistic parameters (private-window flow rule only)
+		if cfg.Kind == kStandalone && !n.dup {
+			n.rDelta = int(em) - 3
+			if cfg.P1+n.rDelta < 0 {
+				n.rDelta = -cfg.P1
+			}
+			modSteps[step] = n.rDelta
+		}
+	}
+}
+
 type tr struct {
 	Step     int
 	Admitted bool
@@ -260,41 +314,32 @@ func run(c *harness.Case, cfg *Cfg, o *harness.Outcome, withReloads bool) (trace
 				firstReload = step
 			}
 			n := l.clone()
-			switch op.N {
-			case 0: // add a rule at the front
-				n.others = append([]int{int(op.M) + 10}, n.others...)
-				n.rpos++
-			case 1: // add at the end
-				n.others = append(n.others, int(op.M)+20)
-			case 2: // remove one
-				if len(n.others) > 0 {
-					i := int(op.M) % len(n.others)
-					n.others = append(n.others[:i], n.others[i+1:]...)
-					if n.rpos > i {
-						n.rpos--
+			edits := 0
+			for en, em := op.N, op.M; edits < 3; en, em, edits = en/8, em/8, edits+1 {
+				applyEdit(cfg, o, n, en%8, em%8, step, modSteps)
+			}
+			if op.N%8 != 7 && (op.N/8)%8 != 7 {
+				o.Probe("reload_compound")
+			}
+			if cfg.Kind == kStandalone && n.rDelta != l.rDelta {
+				// R itself is modified by this load. Is another rule with R's statistic parameters added, removed
+				// or modified by the same load (then R's old statistic and that rule's are handed out in list
+				// order, not by rule)? See known finding C14.modified-rule-stat-taken-by-other-rule.
+				cnt := map[int]int{}
+				for _, p := range l.others {
+					if p%2 == 0 {
+						cnt[p]++
 					}
 				}
-			case 3: // modify one, statistic parameters unchanged
-				if len(n.others) > 0 {
-					i := int(op.M) % len(n.others)
-					n.others[i] += 2
-					o.Probe("reload_modifies_other_with_same_stat_params")
-				}
-			case 4: // move R
-				n.rpos = int(op.M) % (len(n.others) + 1)
-				o.Probe("reload_reorders")
-			case 5: // duplicate R where neutral: a second private window only ever holds a subset of the first one's counts
-				if cfg.Kind == kStandalone && len(modSteps) == 0 {
-					n.dup = !n.dup
-					o.Probe("reload_duplicates_r")
-				}
-			default: // modify R itself keeping its statistic parameters (private-window flow rule only)
-				if cfg.Kind == kStandalone && !n.dup {
-					n.rDelta = int(op.M) - 3
-					if cfg.P1+n.rDelta < 0 {
-						n.rDelta = -cfg.P1
+				for _, p := range n.others {
+					if p%2 == 0 {
+						cnt[p]--
 					}
-					modSteps[step] = n.rDelta
+				}
+				for _, d := range cnt {
+					if d != 0 {
+						modSteps[-1-step] = 1
+					}
 				}
 			}
 			l = n
@@ -402,6 +447,7 @@ func checkKeptStatistics(c *harness.Case, cfg *Cfg, o *harness.Outcome, b []tr, 
 	var passes []uint64
 	ti := 0
 	checked := false
+	competitor := false // some load so far modified R together with a competing rule (negative keys of mods)
 	for step, op := range c.Callers[0] {
 		switch op.K {
 		case "tick":
@@ -410,6 +456,9 @@ func checkKeptStatistics(c *harness.Case, cfg *Cfg, o *harness.Outcome, b []tr, 
 			if d, ok := mods[step]; ok {
 				T = float64(cfg.P1 + d)
 				checked = true
+			}
+			if mods[-1-step] != 0 {
+				competitor = true
 			}
 		case "req":
 			if ti >= len(b) || b[ti].Step != step {
@@ -423,6 +472,10 @@ func checkKeptStatistics(c *harness.Case, cfg *Cfg, o *harness.Outcome, b []tr, 
 				}
 			}
 			want := float64(w)+1 <= T
+			if checked && b[ti].Admitted != want && competitor {
+				o.KnownHit("C14.modified-rule-stat-taken-by-other-rule", "C14.modified-rule-lost-statistics", step, "t=%d rule R was modified (threshold %v, statistic parameters unchanged) by a load that also added, removed or modified another rule with the same statistic parameters: admitted=%v, its window holds %d admissions incl. those before the reload so the reference says %v (old statistics are handed out in list order, not by rule)", now, T, b[ti].Admitted, w, want)
+				return
+			}
 			if checked && b[ti].Admitted != want {
 				o.Fail("C14.modified-rule-lost-statistics", step, "t=%d after rule R's threshold was changed to %v (statistic parameters unchanged): admitted=%v, but its window holds %d admissions (incl. those before the reload) so the reference says %v", now, T, b[ti].Admitted, w, want)
 				return
